@@ -610,9 +610,12 @@ fn write_evidence(prop: &dyn Property, tier: Tier, seed: u64, st: &Stats, violat
         "wall_s": wall,
         "violations": violations,
     });
-    let _ = std::fs::create_dir_all(format!("{VERIF}/evidence"));
+    // XV_EVIDENCE_DIR (development only): keep runs against deliberately broken trees away from
+    // the evidence of record
+    let dir = std::env::var("XV_EVIDENCE_DIR").unwrap_or_else(|_| format!("{VERIF}/evidence"));
+    let _ = std::fs::create_dir_all(&dir);
     let _ = std::fs::write(
-        format!("{VERIF}/evidence/{}.json", prop.id()),
+        format!("{dir}/{}.json", prop.id()),
         serde_json::to_string_pretty(&ev).unwrap(),
     );
 }
